@@ -12,6 +12,7 @@ _WORLDS = {
     "backend": "btcsim.worlds.w3_backend",
     "wire": "btcsim.worlds.w4_wire",
     "hostile": "btcsim.worlds.w4b_hostile",
+    "text": "btcsim.worlds.w4c_text",
     "ceremony": "btcsim.worlds.w5_ceremony",
     "roles": "btcsim.worlds.w5b_roles",
     "taptree": "btcsim.worlds.w5c_taptree",
